@@ -546,6 +546,18 @@ def happy_path(store, nreq, faults=()):
     return render_case(store, ops)
 
 
+def ceiling_case(store, ln, maxb=MAXB):
+    """one lifecycle whose settlement result has `ln` bytes under a `maxb` budget (the 1 MiB ceiling and its neighbours),
+    then stop + recover + retry: live admission and the recovery decoder must agree on the boundary (oracle only: a
+    1 MiB payload is not run through the Gallina BLAKE3 of the model)"""
+    ops = [("new", 7, 11, 12, 13, 14, 15, maxb, 1, 16, 17), ("auth", 0, 99, [(11, 14, 99)]),
+           ("req", "a", 0, "n"), ("claim", "a", 0, 0, 15, 0, 5, "n"),
+           ("cand", 0, 1, [(i * 7 + 3) & 255 for i in range(ln)], 8, 9, "none", 0),
+           ("settle", "a", 0, 0, "n"), ("retry", "a", 0), ("recover", "a"), ("retry", "a", 0), ("adm", "a", 0),
+           ("recover", "a"), ("grant", "a", 0)]
+    return render_case(store, ops)
+
+
 ABSTRACT = ["req0", "req0-flushfault", "req0-acklost", "claim0", "claim0-acklost", "settle0", "settle0-flushfault",
             "retry0", "recover", "trunc", "req1"]
 
@@ -707,6 +719,9 @@ def run(tier, seed, replay=None):
     if not replay:
         try:
             sweep = exhaustive("mem", 2 if tier == "quick" else 4) + exhaustive("fs", 1 if tier == "quick" else 2)
+            # boundary of the settlement budget: exactly at, just below and just above the ceiling and a small budget
+            sweep += [ceiling_case(st, ln, mb) for st in ("mem", "fs") for ln, mb in
+                      [(MAXB, MAXB), (MAXB - 1, MAXB), (MAXB + 1, MAXB), (64, 64), (65, 64), (63, 64)]]
             sweep_n = len(sweep)
             sbad, sweep_checks = impl_only("c17sweep", sweep, bins)
             for c, o in sbad[:5]:
